@@ -814,6 +814,90 @@ theorem C13_ws_send_transmits (fs : List WireChunk) :
 /-- with `feed` alone the frame stays queued (what the forwarder must not do) -/
 example : (({} : Writer).feed (.ok [1])).wire = [] ∧ (({} : Writer).send (.ok [1])).wire = [.ok [1]] := by decide
 
+/-! ## deeply nested values -/
+
+/-- a value of unbounded nesting depth: a thread in first-child / next-sibling form (`leaf` = no more replies) -/
+inductive Nest where
+  | leaf
+  | node (child sibling : Nest)
+  deriving DecidableEq, Repr
+
+def Nest.depth : Nest → Nat
+  | .leaf => 0
+  | .node c s => max (c.depth + 1) s.depth
+
+/-- the encoder recurses on the value, with no depth limit -/
+def encNest : Nest → Bytes
+  | .leaf => [0]
+  | .node c s => 1 :: (encNest c ++ encNest s)
+
+/-- the decoder recurses on `fuel`; `decNest` gives it the length of the input, so it is total and never
+short of fuel on a well-formed body, whatever its depth -/
+def decNestGo : Nat → Bytes → Option (Nest × Bytes)
+  | 0, _ => none
+  | _ + 1, [] => none
+  | f + 1, b :: r =>
+    if b = 0 then some (.leaf, r)
+    else match decNestGo f r with
+      | none => none
+      | some (c, r1) =>
+        match decNestGo f r1 with
+        | none => none
+        | some (s, r2) => some (.node c s, r2)
+
+def decNest (bs : Bytes) : Except Str Nest :=
+  match decNestGo (bs.length + 1) bs with
+  | some (t, []) => .ok t
+  | _ => .error "malformed".toList
+
+def nestCodec : Codec Nest := ⟨fun t => .ok (encNest t), decNest⟩
+
+theorem decNestGo_enc (t : Nest) : ∀ (rest : Bytes) (fuel : Nat), (encNest t).length < fuel →
+    decNestGo fuel (encNest t ++ rest) = some (t, rest) := by
+  induction t with
+  | leaf =>
+    intro rest fuel h
+    cases fuel with
+    | zero => simp at h
+    | succ f => simp [encNest, decNestGo]
+  | node c s ihc ihs =>
+    intro rest fuel h
+    cases fuel with
+    | zero => simp at h
+    | succ f =>
+      simp only [encNest, List.length_cons, List.length_append] at h
+      have h1 := ihc (encNest s ++ rest) f (by omega)
+      have h2 := ihs rest f (by omega)
+      simp only [encNest, List.cons_append, List.append_assoc, decNestGo]
+      simp [h1, h2]
+
+/-- **Decoding is total on encoder output regardless of depth**: the model's tree codec is lawful on every
+value, however deeply nested — no recursion limit on either side -/
+theorem C13_deep_values_roundtrip (t : Nest) : nestCodec.dec (encNest t) = .ok t := by
+  have := decNestGo_enc t [] ((encNest t).length + 1) (by omega)
+  simp only [List.append_nil] at this
+  simp [nestCodec, decNest, this]
+
+/-- values of every depth exist and go through -/
+def chain : Nat → Nest
+  | 0 => .leaf
+  | n + 1 => .node (chain n) .leaf
+
+theorem chain_depth (n : Nat) : (chain n).depth = n := by
+  induction n with
+  | zero => rfl
+  | succ n ih => simp [chain, Nest.depth, ih]
+
+example : nestCodec.dec (encNest (chain 100)) = .ok (chain 100) := C13_deep_values_roundtrip _
+
+theorem nestCodec_lawful : nestCodec.Lawful := fun t => ⟨encNest t, rfl, C13_deep_values_roundtrip t⟩
+
+/-- so the pipeline theorem covers values of every depth: remote = direct for a thread nested n levels, all n -/
+theorem C13_pipeline_deep_values {E : Type} (ie : InEnc) (hie : ie ∈ inputEncodings) (ec : ErrCodec E) (hec : ec.Lawful)
+    (ht : TextSafe ie nestCodec) (body : Nest → Except E Nest) (n : Nat) :
+    remoteCall ie ec nestCodec nestCodec body (chain n) = body (chain n) :=
+  C13_pipeline_refines_direct ie hie ec nestCodec nestCodec body (chain n) nestCodec_lawful nestCodec_lawful hec ht
+
 /-! ## body placement -/
 
 /-- what a decoder is given when the transport hands the body over as a sub-slice of a larger receive buffer:
